@@ -2,6 +2,7 @@ package props
 
 import (
 	"bytes"
+	"encoding/hex"
 	"encoding/json"
 	"fmt"
 	"os"
@@ -40,6 +41,16 @@ func init() {
 			}
 			var r c15Replay
 			json.Unmarshal(raw, &r)
+			if r.What == "declared-type" {
+				b, err := hex.DecodeString(r.Hex)
+				if err != nil {
+					return "", err
+				}
+				if res := safeDecode(bytes.NewReader(b)); res.Panic != "" {
+					return "", fmt.Errorf("Decode panics: %s", res.Panic)
+				}
+				return "no failing reflection access", nil
+			}
 			p := prof()
 			if e, ok := p.fields[r.Mesg][byte(r.Slot)]; ok {
 				if msg := c15Static(e); msg != "" {
@@ -353,6 +364,49 @@ func runC15(w *vx.W) {
 		}
 		if i == 300 {
 			w.Sample(map[string]interface{}{"mesg": e.Mesg.String(), "field": e.Num, "sindex": e.Sindex, "base": e.Base, "array": e.Array, "kind": e.Kind, "length": e.Length, "stream_hex": vx.Hex(stream)})
+		}
+	}
+	// ---- "no profile-driven reflection access can fail": every entry declared with every known base type, at that
+	// type's element size, twice that, the entry's natural size and a long form, both byte orders. Whatever the
+	// definition check admits, storing the value must work (a rejection is fine; a failing reflect call is not)
+	var ai int64
+	for _, e := range p.all {
+		m := uint16(e.Mesg)
+		ft, ok := hostType(m)
+		if m == 0 && e.Num == 0 {
+			continue
+		}
+		if !ok {
+			ft = 4 // a message no container holds is still parsed (and then dropped): any file type will do
+		}
+		nat, _ := probeDef(e)
+		for _, b := range fitmodel.KnownBases {
+			bs := fitmodel.BaseSize(b)
+			seen := map[int]bool{}
+			for _, size := range []int{bs, 2 * bs, int(nat.Size) / bs * bs, 24 / bs * bs} {
+				if size < 1 || size > 255 || seen[size] {
+					continue
+				}
+				seen[size] = true
+				for o := 0; o < 2; o++ {
+					ai++
+					if !w.Mine(ai) {
+						continue
+					}
+					pl := make([]byte, size)
+					for i := range pl {
+						pl[i] = byte(0x21 + i)
+					}
+					fd := fitmodel.FieldDef{Num: e.Num, Size: byte(size), Base: b}
+					stream := probeStream(ft, m, o == 1, []fitmodel.FieldDef{fd}, pl)
+					res := safeDecode(bytes.NewReader(stream))
+					w.Eval(1)
+					w.Fam("every-base-type-on-every-entry", 1)
+					if res.Panic != "" {
+						w.Violation(fmt.Sprintf("reflection-fails/%d.%d", e.Mesg, e.Slot), fmt.Sprintf("message %d (%v) field %d declared with base type %#02x size %d (big-endian=%v): Decode panics: %s", e.Mesg, e.Mesg, e.Num, b, size, o == 1, res.Panic), c15Replay{Mesg: m, Slot: e.Slot, What: "declared-type", Hex: vx.Hex(stream)})
+					}
+				}
+			}
 		}
 	}
 	// ---- the tables are read-only: after exercising the encoder on every array-valued entry of every message
